@@ -146,4 +146,46 @@ def execute(case):
     return Result(v, nontrivial=busy, classes=classes)
 
 
-PARTS = [Part("interleavings", case_strategy, execute, quick=2400, thorough=20000)]
+def enumerate_foreign(tier):
+    for n in (1, 2, 5):
+        for pause in (0.0, 0.02):
+            for rep in range(2 if tier == "quick" else 10):
+                yield {"foreign": True, "n": n, "pause": pause, "rep": rep}
+
+
+def execute_foreign(case):
+    """latest() on the shared background loop, fed by a producer that is not on that loop's
+    thread (a loop-less Stream connected to it, emitting from the caller's thread): the newest
+    element still arrives (real threads: 10 s bound for work that takes milliseconds)"""
+    import time as _t
+    from streamz import Stream
+    base = Stream(asynchronous=False)
+    lat = base.latest()
+    seen = []
+    sk = lat.sink(seen.append)
+    up = Stream()
+    up.connect(lat)
+    _t.sleep(0.02)      # the forwarding coroutine is parked by now
+    for i in range(case["n"]):
+        up.emit(i)
+        if case["pause"]:
+            _t.sleep(case["pause"])
+    t0 = _t.time()
+    while (not seen or seen[-1] != case["n"] - 1) and _t.time() - t0 < 10:
+        _t.sleep(0.002)
+    v = []
+    got = list(seen)
+    if any(b <= a for a, b in zip(got, got[1:])) or any(x not in range(case["n"]) for x in got):
+        v.append(("%s:latest:reordered" % ID, "foreign-thread producer emitted 0..%d, delivered %s"
+                  % (case["n"] - 1, got)))
+    elif not got or got[-1] != case["n"] - 1:
+        v.append(("%s:latest:newest-never-delivered" % ID, "producer on another thread than the "
+                  "node's loop emitted 0..%d; delivered %s after 10 s" % (case["n"] - 1, got)))
+    up.disconnect(lat)
+    sk.destroy()
+    return Result(v, nontrivial=True, classes=["foreign-thread-producer"])
+
+
+PARTS = [Part("interleavings", case_strategy, execute, quick=2400, thorough=20000),
+         Part("foreign-thread-producer", None, execute_foreign, quick=0, thorough=0, shards=1,
+              exhaustive=enumerate_foreign)]
